@@ -12,6 +12,7 @@ package main
 
 import (
 	"bytes"
+	"encoding/binary"
 	"context"
 	"errors"
 	"fmt"
@@ -25,7 +26,6 @@ import (
 	"net/http/httptest"
 	"os"
 	"path/filepath"
-	"regexp"
 	"sort"
 	"strconv"
 	"strings"
@@ -33,6 +33,7 @@ import (
 	"time"
 
 	"github.com/VKCOM/tl/pkg/rpc"
+	"github.com/pierrec/lz4"
 
 	"github.com/VKCOM/statshouse/internal/agent"
 	"github.com/VKCOM/statshouse/internal/aggregator"
@@ -78,16 +79,21 @@ type chInsert struct {
 	secs []int // model seconds found in the body
 }
 
-var markerRe = regexp.MustCompile(`c01m(\d+)e`)
 
 func newFakeCH(base uint32) *fakeCH {
 	f := &fakeCH{kind: chKinds[0], base: base}
 	f.srv = httptest.NewServer(http.HandlerFunc(func(w http.ResponseWriter, r *http.Request) {
 		body, _ := io.ReadAll(r.Body)
+		// a row of second t: …[timestamp of t, 4 bytes LE][tag 0 = markerKey(t), 4 bytes LE][empty string tag 0]…
 		set := map[int]bool{}
-		for _, m := range markerRe.FindAllSubmatch(body, -1) {
-			v, _ := strconv.ParseUint(string(m[1]), 10, 32)
-			set[B+int(int64(v)-int64(base))] = true
+		for i := 4; i+4 < len(body); i++ {
+			if body[i+2] != 0x3A || body[i+3] != 0x5C || body[i+4] != 0 {
+				continue
+			}
+			t := B + int(binary.LittleEndian.Uint16(body[i:])) - 0x8000
+			if binary.LittleEndian.Uint32(body[i-4:]) == uint32(int64(base)+int64(t)-B) {
+				set[t] = true
+			}
 		}
 		var secs []int
 		for s := range set {
@@ -231,6 +237,7 @@ type caseRun struct {
 	oowPrev int64
 	ballastUnits, ballastBytes, unit, row, limit int // historic memory budget: model units <-> real bytes
 	diskOk bool
+	longOutage bool
 	trueUsedPrev, counterPrev int // before the current op: real queued bytes + ballast, and the agent's counter
 	accountingReported bool
 	vt     int
@@ -286,22 +293,59 @@ func (c *caseRun) newAgent() {
 // size in bytes of the framed data of second t: the base bucket plus t%3 further rows (SH.Delivery.dataSize)
 func (c *caseRun) size(t int) int { return c.unit + (t%3)*c.row }
 
+// The bucket of second t: 1 + t%3 counter rows with random tag values (nothing in it depends on the wall clock, so the same
+// seed gives the same bytes). It goes through the REAL compress.CompressAndFrame. Small buckets of random values sit at
+// the lz4 boundary: lz4 output longer than, equal to, or shorter than the input. The harness keeps the candidates whose
+// frame has the stored length (lz4 did not win), so a second's size stays a function of the second (the model's dataSize),
+// and counts how many of them have lz4 size == raw size, the case where stored-vs-compressed is decided by one comparison.
+// markerKey: the tag value that identifies second t in an INSERT body (an int32 tag travels unchanged to RowBinary)
+func markerKey(t int) int32 { return int32(0x5C3A0000 + ((t-B+0x8000)&0xFFFF)) }
+
+func (c *caseRun) candidate(t int, attempt int) agent.VerifC01Cbd {
+	return c.candidateKeys(t, attempt, t%3)
+}
+
+// The small bucket of an almost idle agent: two counter rows with random tag values; the second row has 1 + extra tags,
+// so seconds differ in size (what follows a big second in the historic queue may be smaller).
+func (c *caseRun) candidateKeys(t int, attempt int, extra int) agent.VerifC01Cbd {
+	rg := verifx.NewRng(uint64(t)*0x9E3779B97F4A7C15 + uint64(attempt)*0xD1B54A32D192ED03 + 7)
+	k32 := func() int32 { return int32(rg.U64()>>33) | 1 }
+	cnt := func() float64 { return float64(2+rg.Intn(1000)) + float64(rg.U64()>>11)/float64(1<<53) }
+	item := tlstatshouse.MultiItem{Metric: 1 + (k32() & 0x3FFFFFFF), Keys: []int32{markerKey(t), k32(), k32()}}
+	item.Tail.SetCounter(cnt(), &item.FieldsMask)
+	second := tlstatshouse.MultiItem{Metric: 1 + (k32() & 0x3FFFFFFF), Keys: []int32{k32()}}
+	for j := 0; j < extra; j++ {
+		second.Keys = append(second.Keys, k32())
+	}
+	second.Tail.SetCounter(cnt(), &second.FieldsMask)
+	sb := tlstatshouse.SourceBucket3{Metrics: []tlstatshouse.MultiItem{item, second}}
+	return agent.VerifC01MakeCbd(c.abs(t), &sb)
+}
+
 func (c *caseRun) mkCbd(t int) agent.VerifC01Cbd {
-	a := c.abs(t)
-	item := tlstatshouse.MultiItem{Metric: 424242, Keys: []int32{0, 7}}
-	item.SetSkeys([]string{"", "", fmt.Sprintf("c01m%de", a)})
-	item.Tail.SetCounter(3, &item.FieldsMask)
-	sb := tlstatshouse.SourceBucket3{Metrics: []tlstatshouse.MultiItem{item}}
-	for j := 0; j < t%3; j++ { // seconds differ in size: what follows a big second in the historic queue may be smaller
-		extra := tlstatshouse.MultiItem{Metric: 424243 + int32(j), Keys: []int32{0, 7, 11, 13}}
-		extra.Tail.SetCounter(5, &extra.FieldsMask)
-		sb.Metrics = append(sb.Metrics, extra)
+	for attempt := 0; ; attempt++ {
+		cbd := c.candidate(t, attempt)
+		if cbd.Len() != 4+cbd.RawLen {
+			if attempt > 20000 {
+				c.fatal = fmt.Sprintf("no bucket for second %d with lz4 size >= raw size in 20000 attempts", t)
+				return cbd
+			}
+			continue // lz4 made it smaller: its size would not be the model's dataSize(t)
+		}
+		if c.stats != nil {
+			c.stats["frame.attempts"] += int64(attempt + 1)
+			buf := make([]byte, lz4.CompressBlockBound(cbd.RawLen))
+			if n, err := lz4.CompressBlockHC(cbd.RawBytes(), buf, 0); err == nil && n == cbd.RawLen {
+				c.stats["frame.lz4-equals-raw"]++
+			} else {
+				c.stats["frame.lz4-longer"]++
+			}
+		}
+		if c.unit != 0 && c.row != 0 && cbd.Len() != c.size(t) {
+			c.fatal = fmt.Sprintf("generated second %d has %d bytes, expected %d: sizes are not the function of the second the model uses", t, cbd.Len(), c.size(t))
+		}
+		return cbd
 	}
-	cbd := agent.VerifC01MakeCbd(a, &sb)
-	if c.unit != 0 && c.row != 0 && cbd.Len() != c.size(t) {
-		c.fatal = fmt.Sprintf("generated second %d has %d bytes, expected %d: sizes are not the function of the second the model uses", t, cbd.Len(), c.size(t))
-	}
-	return cbd
 }
 
 // wait for the single runnable sender to block in the rpc or to finish
@@ -432,7 +476,13 @@ func (c *caseRun) checkAnswer(a *ans, r int) {
 		if c.insertedOK[a.sec] == 0 {
 			c.viol("ack-without-insert", "replica %d answered request %d (second %d) with discard but no successful INSERT body carried that second", r, a.rid, a.sec)
 		}
-	case "future-historic", "future-recent", "beyond-window", "stale", "undecodable":
+	case "undecodable":
+		// "undecodable, discard" is a deliberate rejection only for bytes that really are not a framed bucket. Every request
+		// of the agent carries the frame the real CompressAndFrame made from a valid serialized bucket.
+		if a.rid != 0 {
+			c.viol("discard-of-valid-bucket", "replica %d answered request %d with 'undecodable, discard' although second %d was framed by the agent's own compress.CompressAndFrame from a valid bucket: the agent will erase a second that was never inserted", r, a.rid, a.sec)
+		}
+	case "future-historic", "future-recent", "beyond-window", "stale":
 		win := c.aggs[r].Window()
 		if len(win) == 0 {
 			return
@@ -450,15 +500,11 @@ func (c *caseRun) checkAnswer(a *ans, r int) {
 			legit = rounded < oldest-window
 		case "stale":
 			legit = a.sec < oldest-window
-		case "undecodable":
-			legit = a.rid == 0
 		}
 		if !legit {
 			c.viol("reject-inside-window", "replica %d discarded second %d as %s while its window is [%d..%d] (historic window %d)", r, a.sec, a.why, oldest, newest, window)
 		}
-		if a.rid != 0 {
-			c.excused[a.sec] = "rejected:" + a.why
-		}
+		c.excused[a.sec] = "rejected:" + a.why
 	default:
 		c.viol("ack-unknown-reason", "replica %d answered request %d (second %d) with discard for an unlisted reason %q", r, a.rid, a.sec, a.why)
 	}
@@ -532,6 +578,9 @@ func (c *caseRun) held() map[int]bool {
 	}
 	for _, f := range c.flights {
 		h[f.sec] = true
+	}
+	for _, t := range c.ag.Unread() { // still on disk, not yet read back by this process
+		h[c.rel(t)] = true
 	}
 	return h
 }
@@ -953,6 +1002,28 @@ func (c *caseRun) run(quickOps int) {
 	c.op("new %d %d %d %d %d %d", b01(c.disk), b01(c.save), B-agentRel, window, c.sw, c.vt)
 	c.state()
 	step := func() { c.state() }
+	if c.longOutage {
+		// a long aggregator outage: about 2*MaxConveyorDelay seconds pile up on disk, the agent process is restarted, reads
+		// part of the backlog back (at start-up and one record per popped second), and is restarted again before anything is
+		// acknowledged. How far the reader got in the tail file when the process stops is what varies.
+		n := agent.VerifC01StartupReads() - 2 + c.r.Intn(6)
+		for i := 0; i < n && c.fatal == ""; i++ {
+			t := c.vt - c.sw - 2 - i
+			used[t] = true
+			c.doOverflow(t)
+			step()
+		}
+		c.stat("long-outage")
+		for restart := 0; restart < 2 && c.fatal == ""; restart++ {
+			c.doAgentRestart(c.r.Chance(1, 2))
+			step()
+			for k := c.r.Intn(historicSenders + 1); k > 0 && c.busyHistoric() < historicSenders && c.fatal == ""; k-- {
+				c.doPop(B - agentRel)
+				step()
+			}
+		}
+		quickOps /= 3
+	}
 	for i := 0; i < quickOps && c.fatal == ""; i++ {
 		if c.r.Chance(1, 3) {
 			c.vt += c.r.Intn(4)
@@ -1056,7 +1127,7 @@ func (c *caseRun) finish() {
 			c.state()
 		}
 	}
-	for round := 0; round < 60 && c.fatal == ""; round++ {
+	for round := 0; round < 150 && c.fatal == ""; round++ {
 		for _, rid := range c.sortedKeys(c.wire) {
 			c.doRecv(rid)
 			c.state()
@@ -1116,6 +1187,10 @@ func runCase(h *verifx.H, seed uint64, i int, nOps int) *caseRun {
 		answers: map[int64]*ans{}, parkedAt: map[int64]int{}, secOfRid: map[int64]int{}, insertedOK: map[int]int{}, excused: map[int]string{},
 		heldPrev: map[int]bool{}, stats: map[string]int64{}}
 	c.disk = !r.Chance(1, 5)
+	c.longOutage = r.Chance(1, 12)
+	if c.longOutage {
+		c.disk = true
+	}
 	c.save = r.Chance(1, 2)
 	c.sw = 3 + r.Intn(3)
 	c.cl = &fakeClient{c: c}
@@ -1162,6 +1237,28 @@ func main() {
 	}
 	if h.Mode == "conveyor" {
 		conveyor(h)
+		return
+	}
+	if h.Mode == "lz4stat" {
+		c := &caseRun{base: 1700000000}
+		for tm := 0; tm < 8; tm++ {
+			less, eq, more := 0, 0, 0
+			for attempt := 0; attempt < 1000; attempt++ {
+				cbd := c.candidateKeys(B+attempt%7, attempt, tm)
+				switch {
+				case cbd.Len() < 4+cbd.RawLen:
+					less++
+				default:
+					buf := make([]byte, lz4.CompressBlockBound(cbd.RawLen))
+					if n, _ := lz4.CompressBlockHC(cbd.RawBytes(), buf, 0); n == cbd.RawLen {
+						eq++
+					} else {
+						more++
+					}
+				}
+			}
+			fmt.Println("rows", tm+1, "lz4<raw", less, "lz4==raw", eq, "lz4>raw", more)
+		}
 		return
 	}
 	if h.Mode == "wakeup" {
